@@ -74,3 +74,17 @@ Definition call_save_config (save_config : ostr -> ostr -> pinfo -> fsys -> opti
   | Some fs' => (true, fs')
   | None => (false, fs)
   end.
+
+(* try: body  except <catches>: handler  else: els ; then k.  The else block runs after the body when it did
+   not raise, with the variables the body hands on, and is not protected by the handler *)
+Definition ttry_else {R St St2 : Type} (body : tres (ctl R St2)) (catches : texn -> bool)
+           (handler : texn -> tres (ctl R St)) (els : St2 -> tres (ctl R St)) (k : St -> tres R) : tres R :=
+  match (match body with
+         | TOk (Continue s2) => els s2
+         | TOk (Return v) => TOk (Return v)
+         | TRaise e => if catches e then handler e else TRaise e
+         end) with
+  | TOk (Continue s) => k s
+  | TOk (Return v) => TOk v
+  | TRaise e => TRaise e
+  end.
